@@ -125,15 +125,25 @@ func newSecret(name, val string) Secret {
 		}
 		s.forms = append(s.forms, f)
 	}
-	add(val)
-	q := strconv.Quote(val)
-	add(q[1 : len(q)-1])
-	format := val
-	if m := fmt.Sprintf(format); len(m) >= 6 && alnumCount(m) >= 4 { // the secret used as a format string
-		add(m)
+	// the secret as configured, without its trailing return characters, and without any outer white
+	// space (what a "normalising" client would write and log)
+	variants := []string{val}
+	for _, t := range []string{strings.TrimRight(val, "\r\n"), strings.TrimSpace(val)} {
+		if t != "" && t != variants[len(variants)-1] && t != val {
+			variants = append(variants, t)
+		}
 	}
-	// literal fragments that survive any formatting or quoting: split at %, quotes and backslashes; the
-	// byte after a % is the verb
+	for _, v := range variants {
+		add(v)
+		q := strconv.Quote(v)
+		add(q[1 : len(q)-1])
+		format := v
+		if m := fmt.Sprintf(format); len(m) >= 6 && alnumCount(m) >= 4 { // the secret used as a format string
+			add(m)
+		}
+	}
+	// literal fragments that survive any formatting or quoting: split at %, quotes, backslashes, tabs and
+	// return characters; the byte after a % is the verb
 	var cur []byte
 	flush := func() {
 		f := string(cur)
@@ -147,7 +157,7 @@ func newSecret(name, val string) Secret {
 		case '%':
 			flush()
 			i++ // skip the verb
-		case '"', '\\':
+		case '"', '\\', '\r', '\n', '\t':
 			flush()
 		default:
 			cur = append(cur, val[i])
@@ -268,6 +278,33 @@ func genSecret(r *rand.Rand, fam string) string {
 	return string(b)
 }
 
+// decorate adds what real-world secrets carry when they are read from files or pasted: a leading or
+// trailing blank or tab, and - only where rc is non-empty, i.e. where an extra empty line after the
+// secret cannot change what the dialogue means - a trailing return character (the session's own
+// return character rc half of the time, another one otherwise). An embedded return character is
+// never generated: a line-oriented device takes the part before it as the secret and the rest is
+// typed at whatever prompt follows, where devices echo - that is the device's doing, not the
+// library's.
+func decorate(r *rand.Rand, s, rc string) string {
+	if s == "" {
+		return s
+	}
+	if r.Intn(6) == 0 {
+		s = []string{" ", "\t", "  "}[r.Intn(3)] + s
+	}
+	if r.Intn(6) == 0 {
+		s += []string{" ", "\t", " \t"}[r.Intn(3)]
+	}
+	if rc != "" && r.Intn(3) == 0 {
+		if r.Intn(2) == 0 {
+			s += rc
+		} else {
+			s += []string{"\n", "\r", "\r\n"}[r.Intn(3)]
+		}
+	}
+	return s
+}
+
 // ---------------------------------------------------------------------------------------------
 // case descriptor
 
@@ -279,6 +316,7 @@ type EscCase struct {
 	NL      string     `json:"nl"`
 	Cmd     string     `json:"cmd"`
 	Seg     devsim.Seg `json:"seg"`
+	RC      string     `json:"return_char,omitempty"`
 }
 
 // PlatCase is a platform definition whose on-open sequence writes redacted input.
@@ -345,6 +383,20 @@ func genCase(r *rand.Rand, i int) Case {
 			c.Passphrase = ""
 		}
 		c.Secondary = ""
+		rcFor := func(kind string) string {
+			if c10.TrailingReturnSafe(&d, kind) {
+				return d.ReturnChar
+			}
+			return ""
+		}
+		if d.Password != "" {
+			c.Password = decorate(r, c.Password, rcFor(c10.KPassword))
+			d.Password = c.Password
+		}
+		if d.Passphrase != "" {
+			c.Passphrase = decorate(r, c.Passphrase, rcFor(c10.KPassphrase))
+			d.Passphrase = c.Passphrase
+		}
 		c.Login = &d
 	case k < 14:
 		c.Kind = "escalate"
@@ -353,16 +405,24 @@ func genCase(r *rand.Rand, i int) Case {
 		e.Variant = []string{"asks", "asks", "rejects", "rejects", "reasks", "grants", "refuses", "no-secondary", "interactive"}[r.Intn(9)]
 		e.Op = []string{"acquire", "acquire-config", "sendcommand", "sendconfig"}[r.Intn(4)]
 		e.Cmd = "show " + rs(r, "abcdefghijklmnopqrstuvwxyz", 3+r.Intn(8)) + "!"
+		e.RC = []string{"\n", "\n", "\r", "\r\n"}[r.Intn(4)]
+		c.Secondary = decorate(r, c.Secondary, e.RC)
 		c.Esc = e
 	case k < 17:
 		c.Kind = "platform"
 		c.Password, c.Passphrase = "", ""
 		c.Plat = &PlatCase{Host: hosts[r.Intn(len(hosts))], DriverType: []string{"generic", "network"}[r.Intn(2)], Follow: r.Intn(2) == 0,
 			Accept: r.Intn(4) != 0, Seg: genSeg(r)}
+		c.Secondary = decorate(r, c.Secondary, "\n")
 	default:
 		c.Kind = "system"
 		c.Passphrase, c.Secondary = "", ""
 		c.Sys = &SysCase{Mode: []string{"accept", "accept", "retry", "denied", "silent", "thrice"}[r.Intn(6)]}
+		if c.Sys.Mode == "retry" || c.Sys.Mode == "thrice" {
+			c.Password = decorate(r, c.Password, "") // a second prompt follows: an extra empty line would answer it
+		} else {
+			c.Password = decorate(r, c.Password, "\n")
+		}
 	}
 	return c
 }
@@ -411,7 +471,7 @@ func runLogin(c *Case, m *Monitor) session {
 	res, info := c10.RunDialogue(d, &c10.Hooks{ExtraOpts: m.options(c.Level), Drain: true})
 	s := session{kind: "login-" + d.Auth + "-" + d.Driver, outcome: info.Class, c10Verdict: res.Verdict, c10Key: res.Key}
 	for _, rec := range info.DeviceLog {
-		if rec.Line != "" && (rec.Line == d.User || rec.Line == d.Password || rec.Line == d.Passphrase) {
+		if rec.Line != "" && (rec.Line == c10.LineOf(d.User) || rec.Line == c10.LineOf(d.Password) || rec.Line == c10.LineOf(d.Passphrase)) {
 			s.credWrites++
 		}
 	}
@@ -493,7 +553,7 @@ func hiddenCount(dev *devsim.CLI, conn *devsim.Conn, secret string) int {
 	n := 0
 	conn.Do(func() {
 		for _, l := range dev.Lines {
-			if l.Line == secret && secret != "" {
+			if l.Line == c10.LineOf(secret) && secret != "" {
 				n++
 			}
 		}
@@ -504,7 +564,7 @@ func hiddenCount(dev *devsim.CLI, conn *devsim.Conn, secret string) int {
 func runEscalate(c *Case, m *Monitor) session {
 	e := c.Esc
 	s := session{kind: "escalate-" + e.Variant + "-" + e.Op, nonSecret: "enable"}
-	deviceSecret := c.Secondary
+	deviceSecret := c10.LineOf(c.Secondary)
 	if e.Variant == "rejects" || e.Variant == "reasks" {
 		deviceSecret = "device-side-" + c.Secondary[:4] // the library's secret is wrong
 	}
@@ -519,6 +579,9 @@ func runEscalate(c *Case, m *Monitor) session {
 		options.WithTimeoutOps(to)}
 	if e.Variant != "no-secondary" {
 		opts = append(opts, options.WithAuthSecondary(c.Secondary))
+	}
+	if e.RC != "" {
+		opts = append(opts, options.WithReturnChar(e.RC))
 	}
 	opts = append(opts, m.options(c.Level)...)
 	nd, err := network.NewDriver(e.Host, opts...)
@@ -559,7 +622,8 @@ func platformYAML(c *Case) []byte {
 	onOpen := []map[string]interface{}{
 		{"operation": "channel.write", "input": "enable"},
 		{"operation": "channel.return"},
-		{"operation": "channel.write", "input": c.Secondary, "redacted": true},
+		// double-quoted so that leading blanks and trailing return characters survive the YAML round trip
+		{"operation": "channel.write", "input": &yaml.Node{Kind: yaml.ScalarNode, Tag: "!!str", Value: c.Secondary, Style: yaml.DoubleQuotedStyle}, "redacted": true},
 		{"operation": "channel.return"},
 	}
 	def := map[string]interface{}{
@@ -593,7 +657,7 @@ func platformYAML(c *Case) []byte {
 func runPlatform(c *Case, m *Monitor) session {
 	p := c.Plat
 	s := session{kind: "platform-" + p.DriverType, nonSecret: "enable"}
-	deviceSecret := c.Secondary
+	deviceSecret := c10.LineOf(c.Secondary)
 	if !p.Accept {
 		deviceSecret = "device-side-" + c.Secondary[:4]
 	}
@@ -606,7 +670,7 @@ func runPlatform(c *Case, m *Monitor) session {
 	opts := append([]util.Option{options.WithCustomTransport(conn)}, m.options(c.Level)...)
 	pl, err := platform.NewPlatform(platformYAML(c), p.Host, opts...)
 	if err != nil {
-		s.outcome = "platform:" + err.Error()
+		s.outcome = "constructor:platform:" + err.Error()
 		return s
 	}
 	if p.DriverType == "network" {
@@ -697,7 +761,7 @@ func runSystem(c *Case, id string, m *Monitor) session {
 	}
 	s.argv = rec.Argv
 	for _, p := range rec.Passwords {
-		if p == c.Password {
+		if p == c10.LineOf(c.Password) {
 			s.credWrites++
 		}
 	}
@@ -767,6 +831,17 @@ func Run(mc mon.Case) mon.Result {
 	if len(s.argv) > 0 {
 		obs["child_argv_inspected"] = 1
 	}
+	for _, v := range []string{c.Password, c.Passphrase, c.Secondary} {
+		if v == "" {
+			continue
+		}
+		if strings.HasSuffix(v, "\n") || strings.HasSuffix(v, "\r") {
+			obs["secrets_ending_in_return_char"]++
+		}
+		if t := strings.TrimRight(v, "\r\n"); t != strings.TrimSpace(t) {
+			obs["secrets_with_outer_blanks"]++
+		}
+	}
 	if c.Fault != nil && c.Fault.Variant != "" {
 		obs["hook_escalations_refused_with_failure_text"] = 1
 	}
@@ -811,7 +886,8 @@ func init() {
 			"provably reached the device (device log) and, at debug level, the logger saw its 'redacted' write message. Distinct = descriptor hash.",
 		Assumptions: []string{
 			"devices never echo secrets (hidden input); the stand-in ssh puts its tty in raw mode before prompting",
-			"secrets: 12-24 printable bytes, no leading/trailing space, each containing 8 random alphanumerics; families: plain, format verbs, regexp metacharacters, spaces, quotes/backslashes, any printable",
+			"secrets may carry a leading/trailing blank or tab and - where an extra empty line after the secret cannot answer a following credential prompt (escalations, on-open writes, logins whose prompt of that kind is not directly followed by another credential prompt) - a trailing return character (\\n, \\r, \\r\\n, crossed with the session's return char); the device then sees the secret's first line and an empty line; embedded return characters are not generated (the remainder would be typed at the next prompt, which echoes); the search also covers the secret without trailing returns and without outer white space",
+			"secrets: 12-24 printable bytes (before decoration), each containing 8 random alphanumerics; families: plain, format verbs, regexp metacharacters, spaces, quotes/backslashes, any printable",
 			"a leak is the secret raw, %q-quoted, used as a format string, or any fragment (>= 6 bytes, >= 4 alphanumerics) between %, quote and backslash characters",
 			"blindness check at debug level only: >= 1 'redacted' message per credential line the device received, >= 1 message with the non-secret host/command/user",
 			"messages logged by goroutines the library leaves behind later than 50 ms after the session are not seen",
@@ -837,10 +913,13 @@ func init() {
 				}
 				c := genCase(r, 0)
 				c.Kind, c.Esc, c.Plat, c.Sys = "login", nil, nil, nil
-				if c.Password == "" {
-					c.Password = genSecret(r, c.Family)
-				}
+				c.Password = genSecret(r, c.Family) // undecorated; decorated below for this dialogue
 				c.Passphrase, c.Secondary = "", ""
+				if c10.TrailingReturnSafe(&d, c10.KPassword) {
+					c.Password = decorate(r, c.Password, d.ReturnChar)
+				} else {
+					c.Password = decorate(r, c.Password, "")
+				}
 				dd := d
 				dd.Password = c.Password
 				c.Login = &dd
